@@ -258,6 +258,24 @@ func (bucket *Bucket) getOrCreateCollection(name sgbucket.DataStoreNameImpl, orC
 	}
 }
 
+// getCurrentCollection is getCollection for a caller that is not told when a collection is dropped and created
+// again through another handle of the bucket (the expiration run): a cached object with an outdated ID is replaced.
+func (bucket *Bucket) getCurrentCollection(name sgbucket.DataStoreNameImpl) (*Collection, error) {
+	bucket.mutex.Lock()
+	defer bucket.mutex.Unlock()
+
+	id, err := bucket._getCollectionID(name.Scope, name.Collection)
+	if err == sql.ErrNoRows {
+		return nil, sgbucket.MissingError{Key: name.String()}
+	} else if err != nil {
+		return nil, err
+	}
+	if collection, ok := bucket.collections[name]; ok && collection.id == id {
+		return collection, nil
+	}
+	return bucket._initCollection(name, id), nil
+}
+
 func (bucket *Bucket) getOpenCollectionByID(id CollectionID) *Collection {
 	bucket.mutex.Lock()
 	defer bucket.mutex.Unlock()
@@ -333,7 +351,10 @@ func (bucket *Bucket) expireDocuments() (int64, error) {
 	}
 	var count int64
 	for _, name := range names {
-		if coll, err := bucket.getCollection(name.(sgbucket.DataStoreNameImpl)); err != nil {
+		if coll, err := bucket.getCurrentCollection(name.(sgbucket.DataStoreNameImpl)); err != nil {
+			if _, ok := err.(sgbucket.MissingError); ok {
+				continue // dropped since it was listed
+			}
 			return 0, err
 		} else if n, err := coll.expireDocuments(); err != nil {
 			return 0, err
